@@ -217,10 +217,11 @@ where
         }
         is_left_of_root = true;
 
-        // NB: no absolute threshold on dfdx here.  Its magnitude scales
-        // with the size of the argument, and is legitimately below machine
-        // epsilon for small-norm points close to the cone boundary
-        if (dx < T::epsilon()) || (T::abs(dx / x) < T::sqrt(T::epsilon())) || !dx.is_finite() {
+        // NB: no absolute thresholds on dx or dfdx here.  Their magnitudes
+        // scale with the size of the argument: dfdx is legitimately below
+        // machine epsilon for small-norm points close to the cone boundary,
+        // and x itself is of order 1e-12 for points of norm 1e12
+        if (dx <= T::zero()) || (T::abs(dx / x) < T::sqrt(T::epsilon())) || !dx.is_finite() {
             break;
         }
         x += dx;
